@@ -22,13 +22,17 @@ Delivered(rec, n) == rec.clk[1] = n /\ rec.clk[2] = n /\ rec.clk[3] = n
 \* the time of a step reaches the DMA engine too: a transfer in flight (or started by a write to 0xFF46 during the step,
 \* which restarts it from offset 0) has advanced by exactly the machine cycles delivered, one byte each, up to 160
 Seen(rec) == [dact |-> rec.o.dact, doff |-> rec.o.doff]
-DmaKeptPace(rec) ==
+DmaKeptPace(rec, disp) ==
   LET n == rec.clk[3] \div 4
-      restarted == \E i \in 1..Len(rec.wr) : rec.wr[i][1] = 65350
+      nw == Len(rec.wr)
+      pre == IF disp /\ nw >= 2 THEN nw - 2 ELSE nw       \* the two pushes of a dispatch come last, after the devices caught up
+      restarted == \E i \in 1..pre : rec.wr[i][1] = 65350
+      pushed == \E i \in (pre + 1)..nw : rec.wr[i][1] = 65350      \* a dispatch whose push lands on 0xFF46 starts a transfer too
       off0 == IF restarted THEN 0 ELSE d.doff
       act0 == restarted \/ d.dact = 1
       c == IF 160 - off0 < n THEN 160 - off0 ELSE n
-  IN IF ~act0 THEN rec.o.dact = 0
+  IN IF pushed THEN rec.o.dact = 1 /\ rec.o.doff = 0
+     ELSE IF ~act0 THEN rec.o.dact = 0
      ELSE IF off0 + c < 160 THEN rec.o.dact = 1 /\ rec.o.doff = off0 + c ELSE rec.o.dact = 0
 
 NewHistory == IsEvent("init") /\ k' = Zero /\ d' = NoDma
@@ -44,7 +48,7 @@ RunningStep ==
         /\ rec.o.pend \in {0, 5}                          \* five cycles for a dispatch, delivered next step
         /\ k' = RunStep(k, c, disp) /\ Conserved(k')
         /\ Sampled(rec.o)
-        /\ DmaKeptPace(rec) /\ d' = Seen(rec)
+        /\ DmaKeptPace(rec, disp) /\ d' = Seen(rec)
 HaltedStep ==
   /\ IsEvent("step") /\ Recs[l].k = "halt"
   /\ LET rec == Recs[l]
@@ -53,7 +57,7 @@ HaltedStep ==
         /\ rec.o.pend \in {k.pend, k.pend + 5}
         /\ k' = HaltStep(k, disp) /\ Conserved(k')
         /\ Sampled(rec.o)
-        /\ DmaKeptPace(rec) /\ d' = Seen(rec)
+        /\ DmaKeptPace(rec, disp) /\ d' = Seen(rec)
 \* stepping to the next frame: ends just after a vertical blanking period, within two frames plus one step
 FrameStep ==
   /\ IsEvent("frame")
